@@ -63,6 +63,7 @@ from concurrent.futures import ThreadPoolExecutor
 
 import common
 import grpcrig
+import linkproxy
 import procrig
 from common import Inconclusive, Outcome
 
@@ -633,6 +634,28 @@ def sigstop_nemesis(ctx, idx):
                 continue
             n = rnd.choice(targets)
             d = rnd.uniform(1.0, 3.0)
+            fab = getattr(ctx, "fabric", None)
+            if fab is not None and len(targets) >= 2 and rnd.random() < 0.5:
+                # one directed link held for a while, then released: the batch sync / routed writes / snapshot pulls of src -> dst
+                # (and dst's answers to them) arrive late while every other link stays fast.  For the reference this is what a
+                # SIGSTOP of both end points could do to those messages, so it is recorded as one stop per end point ("link").
+                m = rnd.choice([x for x in targets if x is not n])
+                both = rnd.random() < 0.3
+                t0 = time.time()
+                try:
+                    fab.stall(n.id, m.id)
+                    if both:
+                        fab.stall(m.id, n.id)
+                    time.sleep(d)
+                finally:
+                    fab.release(n.id, m.id)
+                    if both:
+                        fab.release(m.id, n.id)
+                t1 = time.time()
+                for x in (n, m):
+                    ctx.faults.append({"kind": "sigstop", "node": x.id, "t0": t0, "t1": t1, "link": [n.id, m.id], "both_directions": both})
+                ctx.count("link_stalls")
+                continue
             t0 = time.time()
             n.sigstop()
             time.sleep(d)
@@ -1197,6 +1220,13 @@ def run_cluster(args):
     binary = os.environ.get("VERIF_RNACOS_BIN") or None      # mutation validation: a binary built from a scratch copy of /repo
     first = procrig.Node(wd, 1, env=NODE_ENV, auto_init=True, binary=binary)
     ctx.nodes = [first] + [procrig.Node(wd, i, env=NODE_ENV, join=first.grpc_addr, auto_init=False, binary=binary) for i in (2, 3)]
+    # node-to-node traffic runs through the link fabric (own process) so that single directed links can be stalled
+    ctx.fabric = linkproxy.FabricProcess({n.id: n.grpc_port for n in ctx.nodes})
+    for n in ctx.nodes:
+        n.advertise = ctx.fabric.addr(n.id)
+        n.after_start = lambda _n: ctx.fabric.set_pids({x.id: (x.p.pid if x.p is not None and x.p.poll() is None else None) for x in ctx.nodes})
+    for n in ctx.nodes[1:]:
+        n.join = first.raft_addr
     ctx.first_start = {}
     ctx.nemesis_on = False
     threads = []
@@ -1335,6 +1365,11 @@ def run_cluster(args):
             pass
         for n in ctx.nodes:
             n.kill()
+        try:
+            res["link_fabric"] = ctx.fabric.stats
+            ctx.fabric.close()
+        except Exception:
+            pass
         res["mechanisms"] = sorted(res["mechanisms"])
         if not os.environ.get("VERIF_KEEP_WORK"):
             shutil.rmtree(wd, ignore_errors=True)
@@ -1384,7 +1419,7 @@ def run(tier, seed):
     out = Outcome("C15", tier, seed)
     out.rule = ("per cluster (3 real nodes, time-outs raised): seeded HTTP writers (register/update/deregister/beat via random nodes) and gRPC "
                 "connections attached to random nodes (register/deregister/close/crash) on 7 services (one per residue of the service hash mod 6, "
-                "2 namespaces, 2 groups) x 5 addresses; nemesis: SIGSTOP 1-3 s, late join of node 3, SIGKILL of a node holding gRPC connections, "
+                "2 namespaces, 2 groups) x 5 addresses; nemesis: SIGSTOP 1-3 s, one directed node-to-node link stalled 1-3 s (delayed batch sync), late join of node 3, SIGKILL of a node holding gRPC connections, "
                 "short (4-8 s) or long (20-24 s) outage, restart. At each checkpoint (after join / while the node is down / after heal) clients "
                 "stop and every live node is polled once per second (instance list per service + single-instance GET for unlisted addresses) "
                 "until all nodes answer the same (ip,port,healthy,enabled,weight) sets that also agree with the reference built from the "
@@ -1403,7 +1438,7 @@ def run(tier, seed):
         "writes racing with a membership change are not held against the reference: operations serialised by a node that (re)joined less "
         "than 3 s ago may act on an empty registry; operations acknowledged by a node that is SIGKILLed before its next 500 ms sync tick may be lost; "
         "HTTP writes for a service whose routing owner differs between the nodes' views (14..21 s after a kill, until 6 s after a (re)join) may be lost",
-        "SIGSTOP approximates a slow node, not a partition; message reordering inside one TCP stream is out of reach",
+        "node-to-node traffic runs through a byte-preserving forwarder (lib/linkproxy.py): a directed link is held 1-3 s and released (delay, never loss); SIGSTOP approximates a slow node; lossy partitions and message reordering inside one TCP stream are out of reach",
     ]
     try:
         rnd = random.Random(seed)
@@ -1448,6 +1483,11 @@ def absorb(out, results):
         for k in ("mixed_address_reference_disagreements", "keys_judged", "keys_only_compared_between_nodes", "grpc_views_compared", "grpc_view_skipped", "connections_lost_with_victim"):
             agg[k] = agg.get(k, 0) + r.get(k, 0)
         mech |= set(r["mechanisms"])
+        lf = r.get("link_fabric") or {}
+        for k in ("connections", "connections_held", "bytes_held_released", "unknown_source"):
+            agg["link_fabric_" + k] = agg.get("link_fabric_" + k, 0) + int(lf.get(k, 0))
+        if lf.get("connections_held"):
+            mech.add("directed-link-stalled-and-released")
         for cp in r["checkpoints"]:
             conv.setdefault(cp["kind"], []).append(cp.get("converged_after_s", "not within %ss" % B_C))
         if len(out.samples) < 4:
